@@ -89,7 +89,7 @@ func H_C16_lifecycle() {
 			err := Refresh(map[string]string{"logger.l1.type": "Logger"})
 			vAssert(err != nil, "invalid-configuration-is-an-error")
 		case 3: // Refresh(invalid): fails late, after tags were rebound
-			err := Refresh(vCfg(false, true))
+			err := Refresh(vCfg(vChoose("lateAsync", 2) == 1, true))
 			vAssert(err != nil, "late-invalid-configuration-is-an-error")
 			if !st.live && !st.failed {
 				st.failed = true
